@@ -31,7 +31,61 @@ func (vc *VC) isNoop(c *ssa.CallCommon) bool {
 	return false
 }
 
+// lockOp: with lock-discipline checking on (some contract file declares 'guarded' fields), Lock/Unlock/RLock/RUnlock on
+// a sync.Mutex / sync.RWMutex update the ghost lock state (GH.lkW: held for writing, GH.lkR: number of read holds),
+// keyed by the address of the mutex.
+func (vc *VC) lockOp(c *ssa.CallCommon, st *State) bool {
+	if len(vc.w.guards) == 0 {
+		return false
+	}
+	f := c.StaticCallee()
+	if f == nil || len(c.Args) != 1 {
+		return false
+	}
+	name := f.String()
+	var op string
+	switch name {
+	case "(*sync.Mutex).Lock", "(*sync.RWMutex).Lock":
+		op = "lock"
+	case "(*sync.Mutex).Unlock", "(*sync.RWMutex).Unlock":
+		op = "unlock"
+	case "(*sync.RWMutex).RLock":
+		op = "rlock"
+	case "(*sync.RWMutex).RUnlock":
+		op = "runlock"
+	default:
+		return false
+	}
+	a := vc.locOfPointer(c.Args[0]).key
+	w := vc.heap(st, "GH.lkW", "(Array Int Bool)")
+	r := vc.heap(st, "GH.lkR", "(Array Int Int)")
+	// Go's mutexes are not reentrant: a goroutine that locks a mutex it already holds (or read-locks one it holds for
+	// writing) blocks forever, so past this point the mutex was not held by it; read-hold counts are never negative
+	reach := vc.reach[vc.curBlock]
+	vc.assumeIf(reach, fmt.Sprintf("(>= (select %s %s) 0)", r, a))
+	switch op {
+	case "lock":
+		vc.assumeIf(reach, fmt.Sprintf("(and (not (select %s %s)) (= (select %s %s) 0))", w, a, r, a))
+	case "rlock":
+		vc.assumeIf(reach, fmt.Sprintf("(not (select %s %s))", w, a))
+	}
+	switch op {
+	case "lock":
+		vc.setHeap(st, "GH.lkW", "(Array Int Bool)", fmt.Sprintf("(store %s %s true)", w, a))
+	case "unlock":
+		vc.setHeap(st, "GH.lkW", "(Array Int Bool)", fmt.Sprintf("(store %s %s false)", w, a))
+	case "rlock":
+		vc.setHeap(st, "GH.lkR", "(Array Int Int)", fmt.Sprintf("(store %s %s (+ (select %s %s) 1))", r, a, r, a))
+	case "runlock":
+		vc.setHeap(st, "GH.lkR", "(Array Int Int)", fmt.Sprintf("(store %s %s (- (select %s %s) 1))", r, a, r, a))
+	}
+	return true
+}
+
 func (vc *VC) execCall(x *ssa.Call, c *ssa.CallCommon, st *State, holder ssa.Value) {
+	if vc.lockOp(c, st) {
+		return
+	}
 	if vc.isNoop(c) {
 		if x != nil {
 			vc.noteTrusted("sync primitives are no-ops (sequential semantics)")
@@ -942,6 +996,14 @@ func (vc *VC) execReturn(x *ssa.Return, st *State) {
 		e0.flushSide(reach)
 		vc.oblige("panics.return", "", reach, "(not "+f+")", "normal return implies !("+vc.spec.Panics.Src+")")
 	}
+	if len(vc.w.guards) > 0 && !vc.spec.LocksHeld {
+		// lock discipline: a function returns with the locks it was called with (unless its contract says 'locks held')
+		for _, hn := range []string{"GH.lkW", "GH.lkR"} {
+			if cur, ok := st.heaps[hn]; ok && cur != hn+"!0" {
+				vc.oblige("lock.balanced", "", reach, fmt.Sprintf("(= %s %s!0)", cur, hn), "every lock taken by the function is released on return ("+hn+")")
+			}
+		}
+	}
 	vc.frameObligations(st, reach)
 	snap := st.clone()
 	for _, ob := range vc.obligations[nob:] {
@@ -988,8 +1050,8 @@ func (vc *VC) frameObligations(st *State, reach string) {
 		srt := vc.heapSorts[n]
 		cur := st.heaps[n]
 		init := n + "!0"
-		if cur == init {
-			continue
+		if cur == init || n == "GH.lkW" || n == "GH.lkR" {
+			continue // (the lock state is checked by lock.balanced, not by the frame)
 		}
 		whole := false
 		var keys []modLoc
